@@ -98,10 +98,10 @@ def full_view(data):
 
 def perms_for(ck, n, quick, alien=None, size_cap=False):
     """`alien`: index of an entry that must be tried at every position of the map; `size_cap`: a large shipped file
-    (each parse takes seconds) gets 16 orders even in the thorough tier, so that the tier ends in tens of minutes"""
+    (each parse takes seconds) gets 5 orders even in the thorough tier, so that the tier ends in tens of minutes"""
     if n <= 5 or (n <= 6 and not quick and not size_cap):
         return list(itertools.permutations(range(n)))
-    k = (24 if n <= 7 else 12) if quick else (16 if size_cap else 120)
+    k = (24 if n <= 7 else 12) if quick else (5 if size_cap else (60 if alien is not None else 80))
     out = [tuple(reversed(range(n)))]
     if alien is not None:
         others = [i for i in range(n) if i != alien]
@@ -181,8 +181,10 @@ def run(ck: Check):
         if i % 2:                          # explicit static values (all value types) and annotations of every kind
             model = X.enrich(rng, model, long_values=True)
         files.append(("random:%d" % i, M.build(model)[0], model))
+    seen_shipped = set()
     for name, data in c05.shipped_dex():
-        if len(data) <= (3000000 if not ck.quick else 40000):
+        if len(data) <= (3000000 if not ck.quick else 40000) and hash(data) not in seen_shipped:
+            seen_shipped.add(hash(data))          # the test data holds several copies of the same classes.dex
             files.append((name, data, None))
     dist = {"files": 0, "parses": 0, "map_entries_min": 99, "map_entries_max": 0, "exhaustive_files": 0,
             "files_with_annotations_or_static_values": 0, "files_with_unassigned_map_type": len(alien),
